@@ -1145,6 +1145,12 @@ class SetPartition(SetIndex):
             "ascending": self.ascending,
             "upsample": self.upsample,
         }
+        # Keep the divisions that the rows are routed by with the expression. The
+        # process-wide ``divisions_lru`` cache may have evicted them by the time they
+        # are read again, and it is empty in a process that received this expression
+        user_divisions = self.user_divisions
+        if user_divisions is None:
+            user_divisions = tuple(self._divisions())
         index_set = _SetIndexPost(
             shuffled,
             self.other._meta.name,
@@ -1152,7 +1158,7 @@ class SetPartition(SetIndex):
             set_name,
             self.frame._meta.columns.dtype,
             kwargs,
-            self.user_divisions,
+            user_divisions,
         )
         return SortIndexBlockwise(index_set)
 
